@@ -40,6 +40,16 @@ theorem rstepL_inv (v : Variant) (frames : List (List Byte)) (ms : List Msg) (hc
     obtain ⟨q', he, _, hst, _⟩ := queueGrow_inv s.q n h.inv.inv
     simp only [rstep, he]
     rw [hst]; exact h.slack
+  | peek mx dst =>
+    have hsame : (rstep s (.peek mx dst)).fed = s.fed := by
+      simp only [rstep]
+      split <;> rfl
+    have hfed : s.fed ++ future = frames.flatten := by rw [← hsame]; exact hfut
+    simp only [rstep]
+    split
+    · rename_i q' r out he
+      exact (queuePeek_phase v frames ms hcar s.q h.inv.codec s.fed future hfed k h.inv.inv hph mx dst q' r out he).2.1 h.slack
+    · exact h.slack
 
 theorem rrunL_inv (v : Variant) (frames : List (List Byte)) (ms : List Msg) (hcar : Carries v frames ms) (ops : List DOp) :
     ∀ (s : RSt) (future : List Byte), (ops.foldl rstep s).fed ++ future = frames.flatten → RInvL v frames ms s →
